@@ -22,7 +22,33 @@ def _load(prop_id):
     return mod, subs
 
 
+class _TaskTimeout(Exception):
+    pass
+
+
 def _task(args):
+    prop_id, sub_name, tier, seed, shard, nshards, known_sigs, budget = args
+    import signal
+    limit = int(os.environ.get("VERIF_TASK_TIMEOUT", "600" if tier == "quick" else "5400"))
+
+    def _alarm(signum, frame):
+        signal.alarm(5)     # keep interrupting whatever is retried after the first expiry
+        raise _TaskTimeout(f"task exceeded its wall-clock guard of {limit}s (inconclusive, not a verdict)")
+    try:
+        signal.signal(signal.SIGALRM, _alarm)
+        signal.alarm(limit)
+    except Exception:  # noqa: BLE001
+        pass
+    try:
+        return _task_inner(args)
+    finally:
+        try:
+            signal.alarm(0)
+        except Exception:  # noqa: BLE001
+            pass
+
+
+def _task_inner(args):
     prop_id, sub_name, tier, seed, shard, nshards, known_sigs, budget = args
     try:
         from . import core
